@@ -130,7 +130,20 @@ def run(ck, F):
             else:
                 ck.violation("R1", f"{decl}:after:{name}", site,
                              f"{decl} can run before `{name}` has succeeded: a failing run destroys or truncates an existing output file", fn="main")
-        if decl not in ("std::fs::write", "std::fs::File::create", "std::fs::rename"):
+        if decl == "std::fs::OpenOptions::open":
+            # the output holds the generated bytes and nothing else: the file is opened empty (truncated, or newly created), not appended to
+            fl = scans.open_options_flags(B, B.term(ebb))
+            if fl is None:
+                ck.undecided("R6", "open-options", site, "how the output file is opened (the OpenOptions builder chain) could not be followed", fn="main")
+            elif fl.get("append") is not False and "append" in fl:
+                ck.violation("R6", "output-opened-empty", site, "the output file is opened for appending: what an earlier run wrote stays in front of the generated code", fn="main")
+            elif fl.get("truncate") is True or fl.get("create_new") is True:
+                ck.ok("R6", "output-opened-empty", site, "the output file is opened truncated / newly created", fn="main")
+            else:
+                ck.violation("R6", "output-opened-empty", site,
+                             "the output file is opened for writing without `truncate(true)`: when the file exists and is longer than the generated code, the tail "
+                             "of the old content stays behind it — the bytes of the output depend on what an earlier run left", fn="main")
+        elif decl not in ("std::fs::write", "std::fs::File::create", "std::fs::rename"):
             ck.violation("R6", f"{decl}", site, f"unexpected file-system effect {decl} in main", fn="main")
     # positive control for the scanner
     ctl = factsmod.controls()
